@@ -34,7 +34,7 @@ RULE = (
 EXHAUSTIVE_SUBSPACES = ["every operator kind x every axis (both spellings) for ranks 1-3 at depth 1"]
 ASSUMPTIONS = ["numpy / scipy definitions in vf/ref.py are the documented functions", "Log / stddev inputs are generated strictly positive"]
 FLOOR = {("node:" + k): 1 for k in pgen.ALL_NODE_KINDS}
-FLOOR.update({"ref:permuted-all": 1, "ref:subset": 1, "ref:repeated": 1, "ref:identity": 1, "ref:fold>1": 1, "ref_circuit_checks": 20, "folded:F>1": 1, "axis:negative": 1, "axis:nonlast": 1, "complex-leaves": 1, "param_values_compared": 500, "opt:rewritten": 1, "opt:einsum": 1, "opt:logsoftmax": 1})
+FLOOR.update({"ref:permuted-all": 1, "ref:subset": 1, "ref:repeated": 1, "ref:near-identity": 1, "ref:identity": 1, "ref:fold>1": 1, "ref_circuit_checks": 20, "folded:F>1": 1, "axis:negative": 1, "axis:nonlast": 1, "complex-leaves": 1, "param_values_compared": 500, "opt:rewritten": 1, "opt:einsum": 1, "opt:logsoftmax": 1})
 
 
 def plan(tier, seed):
@@ -278,10 +278,12 @@ def refcircuit_case(res: Result, rng, k: int) -> Result:
     from cirkit.symbolic.initializers import NormalInitializer
 
     V = rng.randint(2, 4)
+    mode = ["permuted-all", "subset", "repeated", "identity"][k % 4]
+    if mode == "repeated":
+        V = rng.randint(3, 4)
     K = rng.randint(1, 3)
     ncat = rng.randint(2, 3)
     fam = rng.choice(["cat-logits", "embedding"])
-    mode = ["permuted-all", "subset", "repeated", "identity"][k % 4]
     if mode == "permuted-all":
         while True:
             m = list(range(V))
@@ -294,8 +296,18 @@ def refcircuit_case(res: Result, rng, k: int) -> Result:
         VA = V + rng.randint(1, 2)
         m = rng.sample(range(VA), V)
     else:
-        m = [rng.randrange(V) for _ in range(V)]
-        m[0] = m[-1]
+        # repetitions; half of them "near-identity": as many entries as A has tensors, same end points
+        # as the identity map, a duplicate (or a swap next to a duplicate) inside
+        if V >= 3 and rng.random() < 0.5:
+            m = list(range(V))
+            i = rng.randrange(1, V - 1) if V > 3 else 1
+            m[i] = m[i - 1] if rng.random() < 0.5 else m[i + 1]
+            if V == 4 and rng.random() < 0.5:
+                m = [0, 0, 3, 3]
+            res.features.add("ref:near-identity")
+        else:
+            m = [rng.randrange(V) for _ in range(V)]
+            m[rng.randrange(1, V)] = m[0]
     VA = max(V, max(m) + 1) if mode != "subset" else VA
     wrap = rng.choice(["bare", "bare", "exp", "had-own"])
     fold, opt = C.FLAGS[(k // 4) % 4]
